@@ -111,9 +111,18 @@ class Rule:
         return cls.from_spec(json_like)
 
     def to_json_like(self, *args, **kwargs):
+        cast = None
+        if self.cast:
+            # back to the type names that `from_spec` understands:
+            type_names = {v: k for k, v in CAST_DTYPE_LOOKUP.items()}
+            cast_types = {v: k for k, v in CAST_LOOKUP.items()}
+            cast = {
+                type_names[cast_from]: type_names[cast_types[cast_func][1]]
+                for cast_from, cast_func in self.cast.items()
+            }
         out = {
             "condition": self.condition.to_json_like(),
-            "cast": self.cast,
+            "cast": cast,
             "path": self.path.to_json_like(),
         }
         if "shared_data" in kwargs:
